@@ -13,11 +13,16 @@ func (s *Entry) printOut(lvl Level, msg []byte) {
 		defer s.muWrite.Unlock()
 
 		// if a target user-defined writer can be SetLevel, set it before writing.
-		if x, ok := w.(LevelSettable); ok {
-			x.SetLevel(lvl)
+		var n int
+		var err error
+		if ws, ok := w.(LWs); ok {
+			n, err = ws.WriteLeveled(lvl, msg)
+		} else {
+			if x, ok := w.(LevelSettable); ok {
+				x.SetLevel(lvl)
+			}
+			n, err = w.Write(msg)
 		}
-
-		n, err := w.Write(msg)
 		collectWrittenBytes(n)
 
 		if err != nil && lvl != WarnLevel { // don't warn on warning to avoid infinite calls
